@@ -56,6 +56,9 @@ def call_converter(ex, node, st):
 class ConversionValueErrorDeserialize:
     """catch_value_error converters: a ValueError of the converter becomes a ValidationError"""
 
+    assumptions = [
+        "converter outcome model: a user converter f applied to v either returns apply1(f, v), raises a ValidationError, raises a ValueError that is not a ValidationError, or raises another exception -- as a function of (f, v) only",
+    ]
     call_overrides = {"self.converter": call_converter}
     raises = ["ValidationError", "Exception"]
 
@@ -94,6 +97,9 @@ def skipped(c, alts, j, d):
 class ConversionUnionDeserialize:
     """several deserializers of one type: tried in (registration) order"""
 
+    assumptions = [
+        "converter outcome model: a user converter f applied to v either returns apply1(f, v), raises a ValidationError, raises a ValueError that is not a ValidationError, or raises another exception -- as a function of (f, v) only",
+    ]
     kinds = {"self.alternatives": "tuple"}
     call_overrides = {"alternative.converter": call_converter}
     raises = ["ValidationError", "Exception"]
